@@ -676,7 +676,10 @@ func (c *Client) Do(ctx context.Context, q Query) (err error) {
 	done := make(chan struct{})
 	var (
 		gotException atomic.Bool
-		colInfo      chan proto.ColInfoInput
+		// receiveFailed is set before done is closed, so cancellation
+		// goroutine can rely on it.
+		receiveFailed atomic.Bool
+		colInfo       chan proto.ColInfoInput
 	)
 	if q.Result == nil && len(q.Input) > 0 {
 		// Handling input column type inference, e.g. enums.
@@ -725,9 +728,14 @@ func (c *Client) Do(ctx context.Context, q Query) (err error) {
 		}
 		return nil
 	})
-	g.Go(func() error {
+	g.Go(func() (err error) {
 		// Receiving query result, data and telemetry.
 		defer close(done)
+		defer func() {
+			// Errgroup cancels context only after this function returns, i.e.
+			// after done is closed.
+			receiveFailed.Store(err != nil)
+		}()
 		if colInfo != nil {
 			defer close(colInfo)
 		}
@@ -769,7 +777,7 @@ func (c *Client) Do(ctx context.Context, q Query) (err error) {
 	g.Go(func() error {
 		<-done
 		// Handling query cancellation if needed.
-		if ctx.Err() != nil && !gotException.Load() {
+		if (ctx.Err() != nil || receiveFailed.Load()) && !gotException.Load() {
 			err := multierr.Append(ctx.Err(), c.cancelQuery())
 			return errors.Wrap(err, "canceled")
 		}
